@@ -12,9 +12,37 @@ E = {
 # id: (engine, level, text, note, technique)
 CHECKS = {
  "C02": ("E1", "exploration",
-   "every token string <= n tokens, every length stratum 0..136 and every single-token mutant / byte truncation of small documents, through 17 consuming entry points, against a two-sided reference bracket (json.Valid above, json.Valid with string contents masked below)",
+   "every token string <= n tokens, every length stratum 0..136, every single-token mutant / byte truncation and every single-byte substitution/insertion (all 256 values) of small documents, through 17 consuming entry points, against a two-sided reference bracket (json.Valid above, json.Valid with string contents masked below)",
    "trusts encoding/json.Valid and a 30-line string-masking scanner; runs the shipped pre-assembled native routines (AVX2 here, SSE through C13)",
    "bounded-exhaustive input enumeration with a two-sided reference oracle"),
+ "C03": ("E1", "exploration",
+   "every type of a reflect-built type grammar (depth 2 quick / 3 thorough) x every value of a boundary value set, by value and through a pointer: ConfigStd.Marshal vs encoding/json.Marshal (errors coincide, token streams equal, numbers byte-identical, strings by denotation)",
+   "encoding/json is the reference; comparison tokenizer is encoding/json's Decoder.Token",
+   "bounded-exhaustive enumeration of (program=type, input=value) pairs against a reference implementation"),
+ "C04": ("E1", "exploration",
+   "boundary values of ~250 types x ALL 512 encoder option sets: output well-formed, unrepresentable values are errors, plain data round-trips through sonic and encoding/json modulo the documented option effects; cyclic and 5000-deep values",
+   "encoding/json decides representability; round trip asserted only for types that are plain data by construction",
+   "exhaustive enumeration of the option-set space crossed with a bounded value space"),
+ "C09": ("E2", "model_checking",
+   "every history of <= 2 (quick) / 3 (thorough) arbitrary operations followed by an observing one over ~55 operation instances on 7 colliding types, replayed on the real code from reset caches, differential against the empty history; the real ProgramCache driven with fabricated keys over every insertion order of a colliding alphabet at each rehash boundary and 9000 sequential insertions; 2200/4400 distinct types end to end",
+   "loaded machine code cannot be unloaded, so the loader's module list is the one piece of history a reset does not erase",
+   "explicit-state search over operation histories on the real implementation with a differential oracle"),
+ "C15": ("E2", "model_checking",
+   "breadth-first search over all operation histories up to depth 3 (quick) / 4 (thorough) over ~120 operation instances x 10 initial documents on the real ast.Node, states merged on (model state, hidden representation dump), every result and every state's full read-out compared with a 150-line ordered-tree model",
+   "the model encodes the documented semantics; undocumented corners (Move out of range, SortKeys on non-objects) are pruned, not guessed",
+   "explicit-state search over operation histories against a reference model, with state hashing on hidden representation"),
+ "C16": ("E3", "model_checking",
+   "every interleaving with <= 2 preemptions (3 where it completes, thorough) of 2-3 documented read operations on one shared node, for 8 node kinds x documents, at every lock/atomic operation and before every statement touching shared node state (every statement in thorough); linearizability against the node run sequentially, deadlock detection; free-running -race companion pass",
+   "sync/atomic semantics are modelled by a shim; sub-statement memory-model effects are only covered by the -race companion pass",
+   "stateless model checking of the implementation under a controlled scheduler with iterative preemption bounding"),
+ "C18": ("E1", "exploration",
+   "ALL 2^16 Config values x a probe set judged as neighbour pairs per switch (exact relation per documented effect), and all 512 encoder / 192 legal decoder option sets through 41 alternative entry points compared with the frozen Config",
+   "the documented effect of each switch is taken from api.go comments and the property text; encoding/json helpers (HTMLEscape, Compact) define the relations",
+   "exhaustive enumeration of the configuration space with relational (metamorphic) oracles"),
+ "C20": ("E1", "exploration",
+   "all byte strings <= 5 (quick) / 6 (thorough) over a 14-byte alphabet, ~90 payloads at every offset of every length 0..136, all concatenations of <= 4/5 escape tokens, dense escape runs, through 35 entry points incl. every destination capacity for the restartable native routines; oracles: unquote(quote(s))==s, encoding/json, unicode/utf8, json.HTMLEscape",
+   "a 60-line unquote reference mirroring encoding/json (self-checked against it on every case)",
+   "bounded-exhaustive input enumeration (incl. exhaustive output-capacity sweep) against reference implementations"),
 }
 PENDING = {}
 props = [json.loads(l) for l in open('/verif/properties.jsonl')]
